@@ -408,7 +408,7 @@ Qed.
 
 Theorem C37_iff : forall c, validate c <> [] <-> Broken c.
 Proof.
-  intro c. unfold validate, spec_validate, gen_validate, java_validate, Broken.
+  intro c. unfold validate, impl_validate, gen_validate, java_validate, Broken.
   rewrite !app_ne, health_ne, v_bind_ne, !v_quota_ne, v_trusted_ne, v_bf_ne.
   assert (L : (if lite_enabled c then v_lite c else v_classic true c) <> [] <->
               (lite_enabled c = true /\ LiteBroken (routes c)) \/ (lite_enabled c = false /\ ClassicBroken c)).
@@ -428,7 +428,11 @@ Proof.
   intro H. destruct (validate c); [reflexivity | exfalso; apply H; discriminate].
 Qed.
 
-(* ---------------------------------------------------------------- the code as it is (finding C37-1) *)
+(* today's code is the specified validator *)
+Lemma C37_impl_is_spec : forall c, impl_validate c = spec_validate c.
+Proof. reflexivity. Qed.
+
+(* ---------------------------------------------------------------- the PRE-FIX code (fixed findings C37-1, C37-2) *)
 
 Lemma v_quota_impl_eq : forall q, (q_enabled q && f32_is_nan (q_ops q)) = false ->
   v_quota f32_le_zero q = v_quota (fun b => negb (f32_gt_zero b)) q.
@@ -438,11 +442,11 @@ Proof.
   destruct (f32_sign (q_ops q)), (f32_is_zero (q_ops q)); reflexivity.
 Qed.
 
-Theorem impl_eq_spec_off_trigger : forall c, nan_quota c = false -> forced_dup_trigger c = false ->
-  impl_validate c = spec_validate c.
+Theorem prefix_eq_spec_off_trigger : forall c, nan_quota c = false -> forced_dup_trigger c = false ->
+  prefix_validate c = spec_validate c.
 Proof.
   intros c H F. unfold nan_quota in H. apply orb_false_iff in H. destruct H as [H1 H2].
-  unfold impl_validate, spec_validate, gen_validate, java_validate.
+  unfold prefix_validate, spec_validate, gen_validate, java_validate.
   rewrite (v_quota_impl_eq _ H1), (v_quota_impl_eq _ H2).
   unfold forced_dup_trigger in F. destruct (lite_enabled c); [reflexivity|]. cbn [negb andb] in F.
   unfold v_classic, v_forced_dup. unfold forced_collision in F. apply negb_false_iff in F. apply nodup_str_NoDup in F.
@@ -467,7 +471,7 @@ Definition base_cfg : cfg :=
         [(tx "creative.example.com", [tx "server2"])]
         (-1) 256.
 
-Lemma base_accepted : validate base_cfg = [] /\ impl_validate base_cfg = [].
+Lemma base_accepted : validate base_cfg = [] /\ prefix_validate base_cfg = [].
 Proof. vm_compute. split; reflexivity. Qed.
 
 (* the same with connections.ops = NaN (0x7fc00000) *)
@@ -477,7 +481,7 @@ Definition nan_cfg : cfg :=
         true false false [] true false [] false [] [] (tx "legacy")
         [(tx "server1", tx "localhost:25566")] [tx "server1"] [] (-1) 256.
 
-Theorem C37_refuted : exists c, nan_quota c = true /\ Broken c /\ impl_validate c = [] /\ spec_validate c = [QuotaOps].
+Theorem C37_prefix_refuted : exists c, nan_quota c = true /\ Broken c /\ prefix_validate c = [] /\ impl_validate c = [QuotaOps].
 Proof.
   exists nan_cfg. split; [vm_compute; reflexivity|]. split.
   - apply C37_iff. vm_compute. discriminate.
@@ -492,8 +496,8 @@ Definition dup_cfg : cfg :=
         [(tx "s1", tx "localhost:1"); (tx "s2", tx "localhost:2")] []
         [(tx "A.example.com", [tx "s1"]); (tx "a.example.com", [tx "s2"])] (-1) 256.
 
-Theorem C37_refuted_forced : exists c,
-  forced_dup_trigger c = true /\ Broken c /\ impl_validate c = [] /\ spec_validate c = [ForcedCaseDup].
+Theorem C37_prefix_refuted_forced : exists c,
+  forced_dup_trigger c = true /\ Broken c /\ prefix_validate c = [] /\ impl_validate c = [ForcedCaseDup].
 Proof.
   exists dup_cfg. split; [vm_compute; reflexivity|]. split.
   - apply C37_iff. vm_compute. discriminate.
